@@ -24,6 +24,10 @@ CHECKS = {
    text="Every packer/unpacker pair (SS2022 0-3 identity headers, none, SOCKS5, direct) on canary buffers with payload lengths around both ends, all address kinds, MTUs and padding policies; relay part re-packs in place with the service's own headroom formulas for every server x client protocol pair, both directions.",
    note="Bounds enforced by Go (panic = violation) plus canaries inside the buffer; sampled inputs.",
    tech="runtime monitoring: round-trip/MTU/canary oracle on the real codecs (checkptr build)"),
+ "C06": dict(cat="exploration",
+   text="Structure-aware and mutated hostile inputs at every in-process network entry point (SOCKS5/HTTP/SS-none/SS2022 stream servers and clients incl. keyed-but-malformed plaintext, the HTTP forwarder fed hostile origin replies, all UDP unpackers, address/text parsers); everything that parses is routed through routers using every criterion representation and replied to / relayed one step; oracle = no panic / fatal error / checkptr fault / hang in any goroutine.",
+   note="Sampled inputs (no coverage feedback); tproxy/redirect and kernel faults not driven; a crash in any goroutine ends the child and is attributed through the case log.",
+   tech="runtime monitoring: hostile-input workloads under checkptr build with crash/hang oracle"),
 }
 
 PENDING_DEFAULT = "check under construction in this session (design in DESIGN.md §4); not claimed until its monitor runs clean on the unchanged tree"
